@@ -87,7 +87,11 @@ impl TcpStream {
 
             let syn = Protocol::Tcp(Segment::Syn(Syn { ack }));
             if !is_same(pair.local, pair.remote) {
-                world.send_message(pair.local, pair.remote, syn)?;
+                if let Err(e) = world.send_message(pair.local, pair.remote, syn) {
+                    // No route: release the half-open socket (and its port).
+                    world.current_host_mut().tcp.reset_stream(pair);
+                    return Err(e);
+                }
             } else {
                 send_loopback(pair.local, pair.remote, syn);
             };
@@ -95,9 +99,17 @@ impl TcpStream {
             Ok::<_, Error>((pair, rx, bidi))
         })?;
 
+        // Until the handshake completes the half-open socket is owned by this
+        // future: if the connect is refused, or the future is dropped (timeout,
+        // select, host crash), the stream table entry and its ephemeral port
+        // must be released.
+        let mut half_open = HalfOpen { pair, armed: true };
+
         syn_ack.await.map_err(|_| {
             io::Error::new(io::ErrorKind::ConnectionRefused, pair.remote.to_string())
         })?;
+
+        half_open.armed = false;
 
         tracing::trace!(target: TRACING_TARGET, src = ?pair.remote, dst = ?pair.local, protocol = %"TCP SYN-ACK", "Recv");
 
@@ -191,6 +203,24 @@ impl TcpStream {
     /// available.
     pub fn poll_peek(&mut self, cx: &mut Context<'_>, buf: &mut ReadBuf) -> Poll<Result<usize>> {
         self.read_half.poll_peek(cx, buf)
+    }
+}
+
+/// Removes the stream table entry of a connect that never completed.
+struct HalfOpen {
+    pair: SocketPair,
+    armed: bool,
+}
+
+impl Drop for HalfOpen {
+    fn drop(&mut self) {
+        if self.armed {
+            World::current_if_set(|world| {
+                if world.current.is_some() {
+                    world.current_host_mut().tcp.reset_stream(self.pair);
+                }
+            });
+        }
     }
 }
 
